@@ -132,7 +132,7 @@ def cases(tier, seed):
         for cl in ("asm", "fu.cas"):
             for sw in SWITCHES:
                 for ap in (False, True):
-                    for spell in ("./", "sub/../", "nosuch/../", "~/"):
+                    for spell in ("./", "sub/../", "nosuch/../", "~/", "link:"):
                         yield {"target": t, "seq": [[cl, sw, ap]], "sub": False, "spell": spell}
     # sequences of two (and three) invocations on the same path
     steps = [[cl, sw, ap] for cl in (CLIS if thorough else ["asm"]) for sw in SWITCHES for ap in (False, True)]
@@ -192,6 +192,11 @@ def check_case(case):
             before = open("target.out", "rb").read() if os.path.exists("target.out") else None
             kb, fb = classify(before)
             tpath = case.get("spell", "") + "target.out"
+            if case.get("spell") == "link:":
+                # the path given is a symbolic link to the target (dangling when the target is absent)
+                tpath = "latest.out"
+                if not os.path.lexists(tpath):
+                    os.symlink("target.out", tpath)
             if case.get("spell") == "sub/../":
                 os.makedirs("sub", exist_ok=True)
             if case.get("spell") == "~/":
